@@ -1137,11 +1137,12 @@ def run(ctx):
     probe_state(force=True)
     ctx.note("tree state: %s" % _STATE)
     cases = []
-    for spec, cell, h in specs(ctx):
-        cs = handle(spec, cell, h)
-        for c in cs:
-            c.meta = dict(c.meta, handler=h, cell=cell)
-        cases += cs
+    for rep in range(ctx.n(1, 3)):          # thorough: the whole lattice three times with fresh values
+        for spec, cell, h in specs(ctx):
+            cs = handle(spec, cell, h)
+            for c in cs:
+                c.meta = dict(c.meta, handler=h, cell=cell)
+            cases += cs
     # shipped PSF generators
     for kind in ["gauss", "moffat", "defocus"]:
         for n in range(1, 8):
